@@ -182,6 +182,8 @@ def run_c18(ctx):
     ctx.mc("MC_Rename", {"Mode": '"pre"', "Depth": 1, "NVals": 2}, ["BadInPlace"], expect_violation=True)
     cases = []
     for i in range(300 if quick else 6000):
+        # no bound variable named like a parameter here: renaming onto / away from such a name is variable
+        # capture, which the property leaves aside (see the assumption below)
         c = gen_core.gen_case(ctx.seed, 90000 + i, n_states=3, n_calls=2)
         params = _params_of(c["tree"])
         c["rename"] = gen_core.rename_map(rng, params)
